@@ -517,6 +517,7 @@ static uint64_t mix(uint64_t x) {
 
 static uint64_t g_soft = 400000, g_hard = 4000000;
 
+static uint64_t base_watch_t[VS_MAX_THREADS];
 static void derive_cfg(vs_config_t* c, uint64_t base_seed, int i, uint64_t base_points, uint64_t base_watch, int tso_mode, char* sname,
                        size_t sn) {
   memset(c, 0, sizeof *c);
@@ -531,7 +532,27 @@ static void derive_cfg(vs_config_t* c, uint64_t base_seed, int i, uint64_t base_
     snprintf(sname, sn, "fair");
     return;
   }
-  int sel = (int)((h >> 8) % 6);
+  int sel = (int)((h >> 8) % 8);
+  if (sel >= 6 && base_watch >= 4) {
+    // stall: random walk, plus one thread held at one of its own accesses to the watched object
+    int cand[VS_MAX_THREADS], nc = 0;
+    for (int t = 0; t < VS_MAX_THREADS; t++)
+      if (base_watch_t[t] > 0) cand[nc++] = t;
+    if (nc > 0) {
+      static const int ps[] = {2, 4, 6};
+      static const uint64_t lens[] = {3000, 30000, 300000};
+      int t = cand[(h >> 20) % (uint64_t)nc];
+      c->strategy = VS_STRAT_RANDOM;
+      c->p_log2 = ps[(h >> 16) % 3];
+      c->stall_thread = t + 1;
+      c->stall_at = 1 + (h >> 28) % base_watch_t[t];
+      c->stall_len = lens[(h >> 24) % 3];
+      snprintf(sname, sn, "stall_p%d", c->p_log2);
+      if (c->tso) strncat(sname, "+tso", sn - strlen(sname) - 1);
+      return;
+    }
+  }
+  sel %= 6;
   if (sel < 2) {
     static const int ps[] = {2, 4, 6, 8};
     c->strategy = VS_STRAT_RANDOM;
@@ -771,6 +792,7 @@ int main(int argc, char** argv) {
     if (i == 0) {
       base_points = shres->points;
       base_watch = res_label(shres, "watch_hits");
+      for (int t = 0; t < VS_MAX_THREADS; t++) base_watch_t[t] = shres->watch_hits_t[t];
     }
     int found = 0;
     for (int k = 0; k < n_strat; k++)
